@@ -64,6 +64,25 @@ def make_model(key, r, last=None, holes=(), lock=0xFF, pattern="random", unlock_
             cells[a] = 0
         else:
             cells[a] = r.choice([0, 1, 0x7F, 0x80, 0xFE, 0xFF, r.randrange(256)])
+    if pattern == "edges":
+        # every declared value sits on one of its own boundaries
+        for a in range(256):
+            cells[a] = r.randrange(256)
+        for v in lib.values:
+            locs = [l.address for l in v.locations]
+            n = len(locs)
+            scaled = hasattr(v, "mask_length_adjust")
+            nb = n - 1 if scaled else n
+            top = (1 << (8 * nb)) - 1
+            cands = [top, top - 1, top >> 1, (top >> 1) - 1, (top >> 1) + 1, 0, 1, r.getrandbits(8 * nb)]
+            for lim in (getattr(v, "min_value", None), getattr(v, "max_value", None)):
+                if lim is not None:
+                    cands += [lim & top, (lim + 1) & top, (lim - 1) & top]
+            body = r.choice(cands).to_bytes(nb, "big") if nb else b""
+            if scaled:
+                body = bytes([r.choice([0xF9, 0xFA, 0xFB, 0xFF, 0, 1, 5, 6, 6, 7, 0x80, 0x7F])]) + body
+            for a, b in zip(locs, body):
+                cells[a] = b
     cells[0] = last
     cells[1] = r.choice([None, r.randrange(256)])
     if lib.address != 0:
@@ -86,3 +105,70 @@ def make_unit(kind, short, banks):
     if kind == "gear":
         return busim.Gear(short=short, banks=banks, name="U")
     return busim.Device(short=short, banks=banks, name="U")
+
+
+# ---------------------------------------------------------------------------
+def ref_interpret(v, raw):
+    """Class-level interpretation rules of IEC 62386-102 / DiiA parts 251-253,
+    written out independently of the library's check_raw / raw_to_value:
+    scale byte (signed power of ten, -6..6) in front of scaled values, MASK =
+    all ones and TMASK = all ones minus one (positive maximum for signed
+    values) where the value declares them, declared range limits -> Invalid,
+    numbers MSB first, temperatures offset by 60, one-byte versions major<<2 |
+    minor with 0xFF 'not implemented', two-byte versions major.minor, booleans
+    0 / 1, strings ASCII up to the first NUL.  The per-value parameters
+    (signedness, which flags exist, limits, fixed scale) are the declaration's."""
+    from decimal import Decimal
+    from dali.memory import location as L
+    from dali.memory.energy import ScaledNumericValue
+    raw = bytes(raw)
+    # two values of DiiA part 251 (bank 1) with rules of their own
+    if v.name == "CCT" and raw == b"\xff\xfe":
+        return "Part 209 implemented"
+    if v.name == "LightDistributionType":
+        if raw[0] == 0xFF:
+            return L.FlagValue.MASK
+        return (["not specified", "Type I", "Type II", "Type III", "Type IV", "Type V"] + ["reserved"] * 249)[raw[0]]
+    body = raw
+    exp10 = None
+    if issubclass(v, ScaledNumericValue):
+        exp10 = raw[0] - 256 if raw[0] >= 0x80 else raw[0]
+        if not -6 <= exp10 <= 6:
+            return L.FlagValue.Invalid
+        body = raw[1:]
+    nb = len(body)
+    unsigned = int.from_bytes(body, "big")
+    top = (1 << (8 * nb - 1)) - 1 if v.signed else (1 << (8 * nb)) - 1
+    if v.mask_supported and unsigned == top:
+        return L.FlagValue.MASK
+    if v.tmask_supported and unsigned == top - 1:
+        return L.FlagValue.TMASK
+    if issubclass(v, L.BinaryValue):
+        if raw[0] not in (0, 1):
+            return L.FlagValue.Invalid
+        return raw[0] == 1
+    if issubclass(v, L.StringValue):
+        txt = raw.split(b"\x00")[0]
+        if any(c >= 0x80 for c in txt):
+            return L.FlagValue.Invalid
+        return txt.decode("ascii")
+    if not issubclass(v, L.NumericValue):
+        return raw
+    number = unsigned
+    if v.signed and nb and body[0] & 0x80:
+        number = unsigned - (1 << (8 * nb))
+    if v.min_value is not None and number < v.min_value:
+        return L.FlagValue.Invalid
+    if v.max_value is not None and number > v.max_value:
+        return L.FlagValue.Invalid
+    if exp10 is not None:
+        return unsigned * (Decimal(10) ** exp10)
+    if issubclass(v, L.TemperatureValue):
+        return unsigned - 60
+    if issubclass(v, L.VersionNumberValue):
+        if nb == 1:
+            return "not implemented" if unsigned == 0xFF else "%d.%d" % (unsigned >> 2, unsigned & 3)
+        return ".".join(str(b) for b in body)
+    if issubclass(v, L.FixedScaleNumericValue):
+        return v.scaling_factor * number
+    return number
